@@ -780,6 +780,8 @@ def structure_labels(h: Hier, case, defs, q):
 
 # =================================================================================== the oracle
 def check_case(ctx: runner.Ctx, case):  # noqa: C901, PLR0912, PLR0915
+    if "initvar" in case:
+        return check_initvar(ctx, case)
     if case.get("steered"):
         ctx.count("excluded_known")
     try:
@@ -1462,10 +1464,78 @@ def fixed_cases():
             yield _c(kind, [g, p, ch], {"cls": 2, "args": None}, debug=dbg)
 
 
+# ------------------------------------------------------------------------------------ InitVar[T]: an input-only member
+_INITVAR_SRC = """
+from dataclasses import dataclass, InitVar
+from typing import Generic, TypeVar, List, Optional, Dict
+T = TypeVar("T"); K = TypeVar("K")
+
+@dataclass
+class G(Generic[T]):
+    a: T
+    seed: InitVar[T]
+    lst: InitVar[List[T]]
+    opt: InitVar[Optional[Dict[str, T]]]
+    def __post_init__(self, seed, lst, opt):
+        self.seen = (seed, lst, opt)
+
+@dataclass
+class Ground(G[int]):
+    pass
+
+@dataclass
+class Open(G[K], Generic[K]):
+    pass
+
+@dataclass
+class Two(Generic[T, K]):
+    x: InitVar[Dict[K, T]]
+    def __post_init__(self, x):
+        self.seen = x
+"""
+_INITVAR_NS: dict = {}
+INITVAR_PROBES = [
+    # query, datum, expected: ("ok", seen) or "load_error"
+    ("G[int]", {"a": 1, "seed": 2, "lst": [3], "opt": {"k": 4}}, ("ok", (2, [3], {"k": 4}))),
+    ("G[int]", {"a": 1, "seed": "x", "lst": [3], "opt": None}, "load_error"),
+    ("G[int]", {"a": 1, "seed": 2, "lst": ["x"], "opt": None}, "load_error"),
+    ("G[int]", {"a": 1, "seed": 2, "lst": [3], "opt": {"k": "x"}}, "load_error"),
+    ("G[str]", {"a": "q", "seed": "x", "lst": ["y"], "opt": None}, ("ok", ("x", ["y"], None))),
+    ("G[str]", {"a": "q", "seed": 1, "lst": ["y"], "opt": None}, "load_error"),
+    ("G", {"a": 1, "seed": "x", "lst": [None], "opt": {"k": b"b"}}, ("ok", ("x", [None], {"k": b"b"}))),
+    ("Ground", {"a": 1, "seed": 2, "lst": [3], "opt": None}, ("ok", (2, [3], None))),
+    ("Ground", {"a": 1, "seed": "x", "lst": [3], "opt": None}, "load_error"),
+    ("Open[str]", {"a": "q", "seed": "x", "lst": ["y"], "opt": {"k": "v"}}, ("ok", ("x", ["y"], {"k": "v"}))),
+    ("Open[str]", {"a": "q", "seed": "x", "lst": [1], "opt": None}, "load_error"),
+    ("Two[int, str]", {"x": {"k": 1}}, ("ok", {"k": 1})),
+    ("Two[int, str]", {"x": {1: "k"}}, "load_error"),
+]
+
+
+def check_initvar(ctx: runner.Ctx, case):
+    if not _INITVAR_NS:
+        exec(compile(_INITVAR_SRC, "<c16 initvar>", "exec", dont_inherit=True), _INITVAR_NS)  # noqa: S102
+    query, datum, expected = INITVAR_PROBES[case["initvar"]]
+    tp = eval(query, _INITVAR_NS)  # noqa: S307
+    ctx.case(["initvar", case["initvar"], case["debug"]], True, sample={"query": query, "datum": datum, "expected": repr(expected)},
+             labels=["part:initvar"])
+    try:
+        obj = Retort(debug_trail=DEBUG[case["debug"]]).load(datum, tp)
+        got = ("ok", obj.seen)
+    except Exception as e:  # noqa: BLE001
+        got = "load_error" if isinstance(e, LoadError) else describe(e)
+    if got != expected:
+        ctx.violation("initvar_member", (query.split("[")[0], "ok" if expected != "load_error" else "reject"), case,
+                      f"load({datum!r}, {query}) with InitVar members typed by the class's variables: got {got!r}, expected {expected!r}")
+
+
 def explore(ctx: runner.Ctx):
     if ctx.shard == 0:
         for case in fixed_cases():
             check_case(ctx, case)
+        for i in range(len(INITVAR_PROBES)):
+            for dbg in (0, 2):
+                runner.guarded(ctx, lambda c: check_case(ctx, c), {"initvar": i, "debug": dbg})
     ctx.given(st_case(), lambda case: check_case(ctx, case), ctx.budget(6000, 100000))
 
 
